@@ -99,16 +99,17 @@ impl RtpsWriterProxy {
             });
 
         if total_fragments == total_fragments_expected {
+            // Walk the buffered fragments in fragment number order (the first one received for each number)
+            // instead of searching the buffer for every number up to a total taken from the wire
+            let mut frags: Vec<&DataFragSubmessage> = self
+                .frag_buffer
+                .iter()
+                .filter(|f| f.writer_sn() == seq_num && f.fragment_starting_num() <= total_fragments)
+                .collect();
+            frags.sort_by_key(|f| f.fragment_starting_num());
+            frags.dedup_by_key(|f| f.fragment_starting_num());
             let mut data = Vec::new();
-            for frag_number in 0..=total_fragments {
-                let Some(frag) = self
-                    .frag_buffer
-                    .iter()
-                    .find(|f| f.writer_sn() == seq_num && f.fragment_starting_num() == frag_number)
-                else {
-                    continue;
-                };
-
+            for frag in frags {
                 data.extend_from_slice(frag.serialized_payload().as_ref());
             }
 
